@@ -1,6 +1,7 @@
 """C06 - no match means no effect."""
+import json, os
 import fam_run as fr
-from vlib import load_known
+from vlib import load_known, VERIF
 
 PREDS = {"C06_NoMatchNoEffect", "C06_ExitZero"}
 ASSUME = [
@@ -37,9 +38,12 @@ def run(ctx):
     vecs = [v for v in vecs if not v.get("header")]
     # (quick: a seeded sample, but always the patterns that begin with a metavariable - those bind
     #  before anything can be rejected, on every node of the file)
-    early = [v for v in vecs if "meta" in v["id"]]
-    rest = [v for v in vecs if "meta" not in v["id"]]
-    rich = frw.on_files(vecs if not quick else early + frw.sample(ctx, rest, 40),
+    #  before anything can be rejected, on every node of the file - and the patterns with elisions: lists that
+    #  are too short for them are where the search for a place must give up without fuss)
+    raw = {v["id"]: v for v in json.load(open(os.path.join(VERIF, "corpus/nearmiss/vectors.json"))) + json.load(open(os.path.join(VERIF, "corpus/inter/vectors.json")))}
+    early = [v for v in vecs if "meta" in v["id"] or "..." in raw.get(v["id"], {}).get("minus", "")]
+    rest = [v for v in vecs if v not in early]
+    rich = frw.on_files(vecs if not quick else early + frw.sample(ctx, rest, 20),
                         ["corpus/rich/r1.go", "corpus/rich/r2.go", "corpus/inter/inter.go", "corpus/nearmiss/nm_stmt.go",
                          "corpus/nearmiss/nm_expr.go", "corpus/nearmiss/nm_decl.go"], "no-match identity")
     nst = frw.nomatch_identity(ctx, frw.replay_and_judge(ctx, "nomatch", rich, None, shards=16))
